@@ -104,6 +104,12 @@ func (p c06Provider) reset() {
 // file lists for this source (nil: the source is not listed).
 // link != "": the watched path is this symlink to path (the k8s layout); the notification is delivered for the symlink.
 func c06RealJob(v *filein.VerifC06, path, link string, op int, started bool, offs []int64) {
+	c06RealJobStamp(v, path, link, op, started, offs, -1)
+}
+
+// eofStamp = the last_read_timestamp line of the offsets text (the job's EOF time stamp when the offsets were saved: 0 = the
+// earlier run never reached the end of the file); -1 = no such line (the format of older versions: parse takes "now")
+func c06RealJobStamp(v *filein.VerifC06, path, link string, op int, started bool, offs []int64, eofStamp int64) {
 	g := c06GutsOf(v)
 	p := c06ProviderOf(v)
 	// the hand-made job is dropped: close its file, forget it
@@ -125,7 +131,11 @@ func c06RealJob(v *filein.VerifC06, path, link string, op int, started bool, off
 	if offs != nil {
 		sid := c06SourceIDByStat(st, "")
 		var b strings.Builder // the text offsetDB.save writes for one job
-		fmt.Fprintf(&b, "- file: %s\n  inode: %d\n  source_id: %d\n  streams:\n", path, inodeOf(st), uint64(sid))
+		fmt.Fprintf(&b, "- file: %s\n  inode: %d\n  source_id: %d\n", path, inodeOf(st), uint64(sid))
+		if eofStamp >= 0 {
+			fmt.Fprintf(&b, "  last_read_timestamp: %d\n", eofStamp)
+		}
+		b.WriteString("  streams:\n")
 		for i, o := range offs {
 			fmt.Fprintf(&b, "    s%d: %d\n", i, o)
 		}
@@ -218,19 +228,6 @@ func c06ExpiredTick(tick func() int) int {
 	}
 }
 
-const lz4StrandedFinding = "C06-lz4-being-written-removed-unread"
-
-// c06KnownListed: a family that reaches a defect of file.d that is not repaired is emitted only once known_findings.json
-// lists its id (today: lz4StrandedFinding, gen_real.go 10d)
-func c06KnownListed(id string) bool {
-	if os.Getenv("C06_ASSUME_LISTED") != "" { // development aid
-		return true
-	}
-	exe, _ := os.Executable()
-	kf, err := os.ReadFile(filepath.Join(filepath.Dir(filepath.Dir(exe)), "known_findings.json"))
-	return err == nil && bytes.Contains(kf, []byte(id))
-}
-
 func inodeOf(st os.FileInfo) uint64 {
 	return reflect.ValueOf(st.Sys()).Elem().FieldByName("Ino").Uint()
 }
@@ -242,7 +239,10 @@ func inodeOf(st os.FileInfo) uint64 {
 // fix 353d84e any w in the answer was taken for write access and the worker left its jobs loop).
 // Scenarios with a history (the first pass is scenario 2: worker.go marks the job done without reading, "try again later"):
 // 5 = then the watcher's write notification resumes the job and a second pass finds only readers (1);
-// 6 = then a maintenance tick (remove_after off); 7 = then a maintenance tick with remove_after expired
+// 6 = then a maintenance tick (remove_after off): it resumes the job (/repo fix d780bcb) and the pass finds only readers;
+// 7 = the same with remove_after expired (before d780bcb the tick removed the file with nothing read). With saved offsets the
+// offsets text of 6 | 7 says last_read_timestamp: 0 (the earlier run never reached the end of the file); 8 (not generated) = 7
+// without that line
 const c06LsofStub = `#!/bin/sh
 case "$C06_LSOF" in
 1) printf 'COMMAND  PID USER   FD   TYPE DEVICE SIZE/OFF    NODE NAME\nfile.d  4417 root    8r   REG   0,27       87 7256276 %s\n' "$1";;
@@ -390,10 +390,17 @@ func c06ExecLz4(which int, cs hx.Sx) hx.Sx {
 			panic(err)
 		}
 		defer c06ProviderOf(f.v).reset()
-		c06RealJob(f.v, path, "", c06OpContinue, false, offs)
+		stamp := int64(-1)
+		if scenario == 6 || scenario == 7 {
+			stamp = 0 // saved offsets of a run that was ended before it reached the end of the file (what offsetDB.save writes then)
+		}
+		c06RealJobStamp(f.v, path, "", c06OpContinue, false, offs, stamp)
 		first := scenario
 		if scenario >= 5 {
 			first = 2
+		}
+		if scenario == 8 { // replay only (notes/finding-C06-lz4-being-written-followup.md, residual): as 7, EOF time stamp not 0
+			scenario = 7
 		}
 		c06WithLsof(first, func() { f.v.Round(bufsz) })
 		g := c06GutsOf(f.v) // after c06RealJob: the job the real addJob made
